@@ -107,6 +107,10 @@ def build(profile="verif", features=None, bins=None):
     return out, "", time.time() - t0
 
 
+# properties with a part in the deep lane (src/bin/deep.rs)
+DEEP_PROPS = {"C01", "C02", "C03", "C04", "C05", "C06", "C07", "C08", "C11", "C12", "C13", "C15", "C16", "C17", "C19"}
+
+
 def load_known():
     known, fixed = [], []
     # VERIF_KNOWN_FILE is a test hook for the known-findings logic itself; registered commands never set it
@@ -191,6 +195,21 @@ def wait_shards(procs, watchdog_s):
         for cand in (out + ".hang", hs + ".drv.hang"):
             if os.path.exists(cand):
                 hang = cand
+        marker = out + ".deep"
+        if os.path.exists(marker) and any((p.returncode or 0) < 0 or p.returncode == 134 for p in ps):
+            # deep lane: the process was killed while a library call was running on a large input. If the runtime's
+            # stack guard reported it, that is an observation about the library call named in the marker file.
+            errtxt = open(errf.name).read() if os.path.exists(errf.name) else ""
+            if "has overflowed its stack" in errtxt:
+                opname = open(marker).read().strip()
+                w = {"property": None, "sig": f"{opname}: stack exhausted on a large input (unoptimised build, 2 MiB thread stack)",
+                     "operation": opname, "stderr_tail": errtxt[-300:]}
+                synth = {"property": None, "evaluations": 1, "distinct": 0, "counters": {}, "samples": [], "violations": [w],
+                         "n_violations": 1, "violation_sigs": {w["sig"]: 1}, "max_ratio": 0.0, "max_ratio_at": None, "canaries_fed": 0,
+                         "canaries_flagged": 0, "panics": 0, "notes": ["deep lane stopped by the stack guard"], "floors": [], "extra": {}, "wall_s": 0.0}
+                with open(out, "w") as fo:
+                    json.dump(synth, fo)
+                problems = [x for x in problems if not x.startswith(f"shard {s}:")]
         if hang and any(p.returncode == 97 for p in ps):
             # the driver's CPU-time watchdog fired inside one library call: that is an observation, not a harness failure
             w = json.load(open(hang))
@@ -365,6 +384,29 @@ def check(pid, tier, nshards, scale):
         if cfg.get("sweep") and not c.get("features"):
             sweep(pid, tot, allbins, sweep_ids, tier, seed, nshards, scale, wd, watchdog, t0)
 
+    # ---- deep lane: the library compiled without optimisation, very large inputs, 2 MiB thread stack (src/bin/deep.rs)
+    if pid in DEEP_PROPS:
+        dbins, log, dt = build("verifdbg", None, ["deep"])
+        build_s += dt
+        if dbins is None:
+            print(log)
+            inconclusive(pid, "harness-or-library-build-failed (deep lane)", tier, seed, t0)
+        dcfg = dict(cfg, kind="online")
+        procs = run_shards(pid, dcfg, dbins["deep"], tier, seed, 1, scale, wd, label="deep-")
+        problems = wait_shards(procs, watchdog)
+        if problems:
+            ep = os.path.join(wd, "deep-err0.txt")
+            if os.path.exists(ep) and os.path.getsize(ep):
+                sys.stdout.write(open(ep).read()[-3000:])
+            inconclusive(pid, "deep-lane-failed:" + ";".join(problems)[:300], tier, seed, t0)
+        tot = merge(procs)
+        for v in tot["violations"]:
+            v.setdefault("property", pid)
+            v["property"] = pid
+            v["_config"] = "deep"
+        tot["config"] = dict(profile="verifdbg", features=None, label="deep-")
+        totals.append(tot)
+
     # ---- combine configurations
     tot = totals[0]
     for t in totals[1:]:
@@ -380,6 +422,9 @@ def check(pid, tier, nshards, scale):
         tot["canaries_flagged"] += t["canaries_flagged"]
         tot["panics"] += t["panics"]
         tot["distinct"] = max(tot["distinct"], t["distinct"])
+        for f_ in t.get("floors", []):
+            if f_ not in tot["floors"]:
+                tot["floors"].append(f_)
         tot["max_ratio"] = max(tot["max_ratio"], t["max_ratio"])
         tot["samples"] += t["samples"][:4]
     per_config = [{"config": t["config"], "evaluations": t["evaluations"], "distinct": t["distinct"]} for t in totals]
@@ -514,6 +559,22 @@ def replay(path):
                 found += 1
                 if found <= 3:
                     print(json.dumps(v, indent=1))
+    if pid in DEEP_PROPS and w.get("_config") == "deep":
+        dbins, log, dt = build("verifdbg", None, ["deep"])
+        if dbins is None:
+            print(log)
+            print("INCONCLUSIVE build failed")
+            sys.exit(2)
+        procs = run_shards(pid, dict(cfg, kind="online"), dbins["deep"], r["tier"], r["seed"], 1, r["scale"], wd, label="deep-")
+        problems = wait_shards(procs, 4 * 3600)
+        if problems:
+            print("INCONCLUSIVE", problems)
+            sys.exit(2)
+        for v in merge(procs)["violations"]:
+            if v.get("sig") == w.get("sig"):
+                found += 1
+                if found <= 3:
+                    print(json.dumps(v, indent=1))
     print(f"replayed shard {r['shard']}/{r['nshards']} seed {r['seed']} tier {r['tier']}: "
           f"{found} recorded witness(es) with signature {w.get('sig')!r}")
     if found:
@@ -529,7 +590,8 @@ def main():
         sys.exit(3)
     if a[0] == "build":
         ok = True
-        for prof, feat, bins in (("verif", None, None), ("verif", "borsh", ["C18"]), ("verif", "hooks", ["C03", "C10", "C16"])):
+        for prof, feat, bins in (("verif", None, None), ("verif", "borsh", ["C18"]), ("verif", "hooks", ["C03", "C10", "C16"]),
+                                 ("verifdbg", None, ["deep"])):
             b, log, dt = build(prof, feat, bins)
             print(f"build profile={prof} features={feat}: {'ok' if b else 'FAILED'} {dt:.1f}s")
             if not b:
